@@ -764,7 +764,7 @@ pair<ndsize_t, ndsize_t> RangeDimension::indexOf(const double start, const doubl
     vector<double> ticks = this->ticks();
     boost::optional<ndsize_t> si = getIndex(start, ticks, PositionMatch::GreaterOrEqual);
     boost::optional<ndsize_t> ei = getIndex(end, ticks, PositionMatch::LessOrEqual);
-    if (!ei || !si) {
+    if (!ei || !si || start > end || *si > *ei) {
         throw nix::OutOfBounds("RangeDimension::indexOf: start or end of range are out of Bounds!");
     }
     return std::pair<ndsize_t, ndsize_t>(*si, *ei);
